@@ -9,7 +9,19 @@ def fh(tok):
 
 
 def parse_out(text):
-    """-> list of op dicts; each has 'op', scalar fields, arrays, and 'L'/'U' sub-dicts."""
+    """-> list of op dicts; each has 'op', scalar fields, arrays, and 'L'/'U' sub-dicts.
+    A dump that cannot be parsed (the harness printed through corrupted factor structures) raises GarbledOutput."""
+    try:
+        return _parse_out(text)
+    except (ValueError, IndexError, KeyError, TypeError) as e:
+        raise GarbledOutput(repr(e))
+
+
+class GarbledOutput(Exception):
+    pass
+
+
+def _parse_out(text):
     ops = []; cur = None; pre = {}
     for line in text.split("\n"):
         if not line:
@@ -86,7 +98,13 @@ def run_script(exe, script, timeout=120, workdir=None):
     except subprocess.TimeoutExpired as e:
         rc = None; err = "timeout"
     text = open(op).read() if os.path.exists(op) else ""
-    ops, done = parse_out(text)
+    try:
+        ops, done = parse_out(text)
+    except GarbledOutput as e:
+        # the result dump itself is inconsistent (e.g. column counts taken from corrupted factor arrays): report as a crash of the run
+        ops, done = [], False
+        err = (err or "") + "\nGARBLED-OUTPUT %s" % e
+        if rc == 0: rc = -999
     if workdir is None:
         import shutil; shutil.rmtree(d, ignore_errors=True)
     return ops, done, rc, err
